@@ -836,3 +836,59 @@ Proof.
   eexists. eexists. eexists. eexists. split; [vm_compute; reflexivity|]. split; [vm_compute; reflexivity|].
   split; vm_compute; reflexivity.
 Qed.
+
+(* ---- the repaired cache over a history of calls (proofs/ReflectNamesProofs.v) *)
+
+(* the invariant, for EVERY descriptor set and every history of SchemaCache.Schema calls (failed and
+   rolled-back ones included), no hypothesis: every object the cache holds has pairwise distinct client
+   property names through all flatten levels (ClientProperties returns at some recursion depth f; by
+   C18_client_properties_do_not_depend_on_fuel_or_later_entries the result is the same at any greater
+   depth and in any later state of the cache) *)
+Theorem C18_checked_cache_client_names_distinct : forall D s,
+  o_checked_reach D s ->
+  forall k n d en am ps, lookup (fst s) k = Some (Linked (RObject n d en am ps)) ->
+    exists f cps, client_props f (fst s) ps = Ok cps /\ NoDup (map p_json cps).
+Proof. exact o_checked_reach_names. Qed.
+Print Assumptions C18_checked_cache_client_names_distinct.
+
+Theorem C18_client_properties_do_not_depend_on_fuel_or_later_entries : forall S S',
+  (forall k r, lookup S k = Some (Linked r) -> lookup S' k = Some (Linked r)) ->
+  forall f n ps cps, client_props f S ps = Ok cps -> client_props (f + n) S' ps = Ok cps.
+Proof. exact client_props_mono. Qed.
+Print Assumptions C18_client_properties_do_not_depend_on_fuel_or_later_entries.
+
+(* the repaired cache only visits states of the cache: a clash is one more kind of failed call *)
+Theorem C18_checked_cache_states_are_cache_states : forall D s, o_checked_reach D s -> o_cache_reach D s.
+Proof. exact o_checked_reach_is_reach. Qed.
+Print Assumptions C18_checked_cache_states_are_cache_states.
+
+(* transparency of the answers (wf_keys): whatever the history, an answer of the repaired cache is the
+   schema a fresh cache builds for the message, and the schema a fresh repaired cache answers is what the
+   build of every repaired cache with a history produces.  NOT proved: that the name check of the call
+   with a history passes exactly when the fresh one's does (the two calls register different refs;
+   needs "the refs a build registers are those reachable from the message and absent before") *)
+Theorem C18_checked_cache_answer_is_the_fresh_build : forall D, wf_keys D -> forall s m r,
+  o_checked_reach D s -> In m (d_msgs D) ->
+  snd (o_cache_schema_checked D (size D) s m) = Ok r ->
+  snd (o_cache_schema D (size D) ([], []) m) = Ok r.
+Proof. exact o_checked_cache_answer_is_fresh. Qed.
+Print Assumptions C18_checked_cache_answer_is_the_fresh_build.
+
+Theorem C18_checked_fresh_answer_is_built_after_any_history : forall D, wf_keys D -> forall s m r,
+  o_checked_reach D s -> In m (d_msgs D) ->
+  snd (o_cache_schema_checked D (size D) ([], []) m) = Ok r ->
+  snd (o_cache_schema D (size D) s m) = Ok r.
+Proof. exact o_checked_fresh_answer_is_built. Qed.
+Print Assumptions C18_checked_fresh_answer_is_built_after_any_history.
+
+(* file order and the repaired reader (wf_keys): accepted in one order => the build succeeds in every other
+   order; two accepted orders give sets that agree on every message and enum both hold.  NOT proved: that the
+   name check passes in the other order too (same missing lemma as for the cache) *)
+Theorem C18_checked_reader_file_order : forall D, wf_keys D -> forall fs fs',
+  Permutation fs fs' ->
+  (forall S ow, o_reflect_checked D fs = Ok (S, ow) -> exists S' ow', o_reflect D fs' = Ok (S', ow')) /\
+  (forall S ow S' ow', o_reflect_checked D fs = Ok (S, ow) -> o_reflect_checked D fs' = Ok (S', ow') ->
+     (forall m r r', In m (d_msgs D) -> lookup S (msg_key m) = Some (Linked r) -> lookup S' (msg_key m) = Some (Linked r') -> r = r') /\
+     (forall e r r', In e (d_enums D) -> lookup S (enum_key e) = Some (Linked r) -> lookup S' (enum_key e) = Some (Linked r') -> r = r')).
+Proof. exact o_reflect_checked_order. Qed.
+Print Assumptions C18_checked_reader_file_order.
